@@ -7,6 +7,8 @@ CONSTANTS
   Mutex = FALSE
   ErrsCloser = "postgen"
   MainReadsErrs = TRUE
+  GenVariants = {1}
+  SlotRelease = "deferred"
   SkipRule = "coded"
   TwoRuns = FALSE
   EmitCases = FALSE
